@@ -90,7 +90,8 @@ INV_VARIANTS = (
     ('one', inv(1, max_unit=1)),
     ('unit2', inv(4, min_unit=2, max_unit=2, step_size=2)),
     ('reserved', inv(4, reserved=4, max_unit=4)),          # reserved == total: allowed since 1.26
-    ('frac', inv(3, allocation_ratio=1.5)),                # capacity 4.5: 4 fits, 5 does not
+    ('frac', inv(7, allocation_ratio=0.5)),                # capacity 3.5: 3 fits, 4 does not (and
+    #                                                        3.5 rounds UP under round() and ceil)
 )
 USE_AMOUNTS = (1, 2, 'all')
 PERMISSIVE = inv(1000, max_unit=1000)      # scratch inventory while the filler usage is written
